@@ -6,10 +6,10 @@
    Contract: duplicating a datagram is a stuttering step on everything observable -- datagrams sent
    (destination, header, sections, instant), browser callbacks, record-update-listener calls --
    except ExtraUnicast: a duplicated query that contains a QU question may be answered by unicast a
-   second time (the copy of a unicast reply sent at the instant of the duplication).
+   second time (see ExtraUnicast).
 
    Input: { traces: [ {id, ref: [obs], dup: [obs], qudups: [instants]} ] } with
-   obs = [k |-> "send" | "cb" | "lc" | "exc", t, mc (send only), sig (interned content)].        *)
+   obs = [k |-> "send" | "cb" | "lc" | "exc", t, mc (send only), sig (interned content), sig2 (sends: content without id)].        *)
 EXTENDS Integers, Sequences, FiniteSets, Json, IOUtils, TLC, TLCExt
 
 ASSUME TLCSet(42, JsonDeserialize(IOEnv.TRACE_FILE))
@@ -22,11 +22,23 @@ vars == <<tid, i, j, err>>
 
 Ref == Traces[tid].ref
 Dup == Traces[tid].dup
-QuDups == {Traces[tid].qudups[k] : k \in 1..Len(Traces[tid].qudups)}
+QuDups == {Traces[tid].qudups[k] : k \in 1..Len(Traces[tid].qudups)}      \* [t |-> instant of the copy, tc |-> its TC flag]
 Same(a, b) == a.k = b.k /\ a.t = b.t /\ a.sig = b.sig /\ a.mc = b.mc
 
-(* the permitted difference: an extra copy of a unicast reply at the instant a QU query was duplicated *)
-ExtraUnicast(d) == d.k = "send" /\ ~d.mc /\ d.t \in QuDups      \* (its id is the copy's own id when the first copy completed a held TC train)
+(* the permitted difference: the copy of a query with a QU question is answered by unicast as well -- at the instant of the
+   copy, or, when the query carries the TC flag and is therefore held back for its continuation, when that hold (at most
+   500 ms) runs out.  (Its id is the copy's own id when the first copy completed a held TC train.) *)
+ExtraUnicast(d) == /\ d.k = "send" /\ ~d.mc
+                   /\ \E q \in QuDups : d.t = q.t \/ (q.tc /\ q.t < d.t /\ d.t <= q.t + 500)
+
+(* while the copy of a TC-flagged QU query is held, a further query of the same source completes the held train: its unicast
+   reply is the same datagram at the same instant but carries the id of the train's first packet *)
+SameButId(a, b) == /\ a.k = "send" /\ b.k = "send" /\ ~a.mc /\ ~b.mc /\ a.t = b.t /\ a.sig2 = b.sig2
+                   /\ \E q \in QuDups : q.tc /\ q.t < a.t /\ a.t <= q.t + 500
+
+(* at a tie (both runs have a different next event in the same millisecond) the reference is the one with the extra event
+   when the duplicated run's event occurs further on in the reference at that instant *)
+RefAhead == \E k \in (i + 1)..Len(Ref) : Ref[k].t = Dup[j].t /\ Same(Ref[k], Dup[j])
 
 ClauseFor(d) == IF d.k = "send" THEN (IF d.mc THEN "C16_NoExtraMulticast" ELSE "C16_OnlyPermittedExtraUnicast")
                 ELSE IF d.k = "cb" THEN "C16_SameCallbacks"
@@ -36,9 +48,10 @@ ClauseFor(d) == IF d.k = "send" THEN (IF d.mc THEN "C16_NoExtraMulticast" ELSE "
 Init == tid \in 1..N /\ i = 1 /\ j = 1 /\ err = ""
 Next ==
   /\ err = "" /\ (i <= Len(Ref) \/ j <= Len(Dup))
-  /\ IF i <= Len(Ref) /\ j <= Len(Dup) /\ Same(Ref[i], Dup[j]) THEN i' = i + 1 /\ j' = j + 1 /\ err' = ""
+  /\ IF i <= Len(Ref) /\ j <= Len(Dup) /\ (Same(Ref[i], Dup[j]) \/ SameButId(Ref[i], Dup[j])) THEN i' = i + 1 /\ j' = j + 1 /\ err' = ""
      ELSE IF j <= Len(Dup) /\ ExtraUnicast(Dup[j]) THEN i' = i /\ j' = j + 1 /\ err' = ""
-     ELSE IF j <= Len(Dup) /\ (i > Len(Ref) \/ Dup[j].t <= Ref[i].t) THEN i' = i /\ j' = j /\ err' = ClauseFor(Dup[j])
+     ELSE IF j <= Len(Dup) /\ (i > Len(Ref) \/ Dup[j].t < Ref[i].t \/ (Dup[j].t = Ref[i].t /\ ~RefAhead))
+          THEN i' = i /\ j' = j /\ err' = ClauseFor(Dup[j])
      ELSE i' = i /\ j' = j /\ err' = "C16_NothingLost"          \* the reference has an event the duplicated run lacks
   /\ UNCHANGED tid
 Spec == Init /\ [][Next]_vars
